@@ -394,15 +394,57 @@ def cmd_second(argv):
     cmd_report([])
 
 
+def cmd_recheck(argv):
+    """tools/mutate.py recheck: the checks have been strengthened since many verdicts were recorded.  Every recorded survivor whose
+    mutant still applies to /repo as it is now runs again against its checks as they are now; one that no longer applies (the file
+    was changed by a later fix: commit) is marked stale.  Verdicts carry `rechecked` = the /verif commit they were obtained at."""
+    muts = {m["id"]: m for m in json.load(open(os.path.join(OUT, "survivors.json")))}
+    rp = os.path.join(OUT, "results.json")
+    res = json.load(open(rp))
+    head = subprocess.run(["git", "-C", VERIF, "rev-parse", "--short", "HEAD"], capture_output=True, text=True).stdout.strip()
+    for mid, r in sorted(res.items()):
+        if r["killed_by"] or r.get("rechecked") or r.get("stale"):
+            continue
+        m = muts.get(mid)
+        try:
+            ok = m is not None and open(os.path.join("/repo", m["file"])).read()[m["start"]:m["end"]] == m["old"]
+        except OSError:
+            ok = False
+        if not ok:
+            r["stale"] = True
+            json.dump(res, open(rp, "w"), indent=0)
+            print(mid, r["file"].split("/")[-1], r["line"], "STALE", flush=True)
+            continue
+        base, copy = make_copy(m)
+        try:
+            for pid in list(r["checks"]):
+                p = subprocess.run(["./check", pid, "quick"], cwd=VERIF, env=dict(os.environ, VERIF_REPO=copy), capture_output=True, text=True)
+                r["checks"][pid] = p.returncode
+                if p.returncode == 1:
+                    r["killed_by"] = [pid]
+                    break
+        finally:
+            shutil.rmtree(base, ignore_errors=True)
+        r["rechecked"] = head
+        json.dump(res, open(rp, "w"), indent=0)
+        print(mid, r["file"].split("/")[-1], r["line"], r["op"], ("KILLED by " + r["killed_by"][0]) if r["killed_by"] else "still survives", "|", r["what"][:70], flush=True)
+    cmd_report([])
+
+
 def cmd_report(argv):
     res = json.load(open(os.path.join(OUT, "results.json")))
     k = sum(1 for r in res.values() if r["killed_by"])
+    stale = sum(1 for r in res.values() if not r["killed_by"] and r.get("stale"))
+    cur = sum(1 for r in res.values() if not r["killed_by"] and r.get("rechecked"))
+    old_ = len(res) - k - stale - cur
     err = sum(1 for r in res.values() if not r["killed_by"] and 2 in r["checks"].values())
-    print(f"{len(res)} test-suite-surviving mutants run: {k} killed by a check, {len(res) - k} survived ({err} with a harness error)")
+    print(f"{len(res)} test-suite-surviving mutants run: {k} killed by a check; {cur} survive the checks as they are now; {stale} stale (file changed by a later fix); "
+          f"{old_} survivors not re-run since the checks were strengthened; {err} with a harness error")
     for mid, r in res.items():
         if not r["killed_by"]:
-            print("  SURVIVOR", mid, r["file"], r["line"], r["op"], r["what"][:90], r["checks"])
+            tag = "STALE" if r.get("stale") else "SURVIVOR" if r.get("rechecked") else "SURVIVOR(old verdict)"
+            print(" ", tag, mid, r["file"], r["line"], r["op"], r["what"][:90], r["checks"])
 
 
 if __name__ == "__main__":
-    {"gen": cmd_gen, "filter": cmd_filter, "kill": cmd_kill, "second": cmd_second, "report": cmd_report}[sys.argv[1]](sys.argv[2:])
+    {"gen": cmd_gen, "filter": cmd_filter, "kill": cmd_kill, "second": cmd_second, "recheck": cmd_recheck, "report": cmd_report}[sys.argv[1]](sys.argv[2:])
